@@ -158,6 +158,43 @@ def identically_zero(e, syms):
     raise Broken("identity %s = 0 not decided" % e)
 
 
+def multi_piece_inverse(chk, ta, T, tb, left, right, tau, b, where):
+    """C17-R2 for an inverse with any finite number of pieces on T > 0 (DESIGN s13.9): on every interval between
+    consecutive switch points the piece v must satisfy toTime(v(T)) = T (with toTime's branch chosen by the side of its
+    switch v(T) lies on).  A piece is refuted by an exact sample point of the interval where the residual, relative to
+    the distance of T from toTime(switch) (the scale of tau there), exceeds 1e-9 - a truncated series is, an identity
+    that merely does not simplify is not; a piece that is neither refuted nor proved ends analysis-broken."""
+    pts = sorted(p_ for p_ in tb if p_.is_positive)
+    if not pts:
+        raise Broken("toTau: no switch point on T > 0")
+    Tsw = left.subs(tau, b)
+    edges = [Integer(0)] + pts + [sp.oo]
+    for lo, hi in zip(edges, edges[1:]):
+        v = region_value(ta, T, lo, hi)
+        samples = [lo + Rational(1, 1000), lo + 1, 2 * lo + 10] if hi == sp.oo else [lo + (hi - lo) * Rational(k, 1000) for k in (1, 250, 500, 750, 999)]
+        refuted, side = None, None
+        for t0 in samples:
+            tv = sp.N(v.subs(T, t0), 60)
+            if not (tv.is_number and tv.is_real and tv.is_finite):
+                refuted = "toTau(%s) = %s is not a finite real" % (t0, tv)
+                break
+            this_side = right if tv >= sp.N(b, 60) else left
+            side = side or this_side
+            res = abs(sp.N(this_side.subs(tau, tv), 60) - t0)
+            scale = abs(sp.N(t0 - Tsw, 60))
+            if scale > 0 and res / scale > sp.Float("1e-9"):
+                refuted = "at T = %s: toTime(toTau(T)) - T = %s (%s relative to |T - %s|)" % (t0, sp.N(res, 6), sp.N(res / scale, 6), Tsw)
+                break
+        inst = "toTime(toTau(T)) = T for T in (%s, %s)" % (lo, hi)
+        if refuted:
+            chk.ob("C17-R2", inst, False, where, "piece %s: %s" % (v, refuted), construct="QuadInvTimeMap/inverse/piece(%s,%s)" % (lo, hi))
+            continue
+        Tp = sp.Symbol("Tp", positive=True)
+        if sp.simplify(exact(side.subs(tau, v)).subs(T, Tp) - Tp) != 0:
+            raise Broken("toTau: piece %s on (%s, %s) neither refuted nor proved an inverse of toTime" % (v, lo, hi))
+        chk.ob("C17-R2", inst, True, where, "piece %s" % v, construct="QuadInvTimeMap/inverse/piece(%s,%s)" % (lo, hi))
+
+
 def sqrt_simplify(e, assume_nonneg):
     """Simplify sqrt(polynomial^2-like) under var = b +/- u, u >= 0 (already substituted)."""
     def fix(x):
@@ -244,36 +281,37 @@ def run(chk):
     for c, v in ta:
         tb |= boundary_points(c, T)
     if len(tb) != 1:
-        raise Broken("toTau: expected one switch point")
-    Tb = next(iter(tb))
-    chk.ob("C17-R2", "toTau switches at T = toTime(switch)", sp.simplify(Tb - left.subs(tau, b)) == 0, loc(fs["toTau"]), "T switch %s, toTime(%s) = %s" % (Tb, b, left.subs(tau, b)),
-           construct="QuadInvTimeMap/toTau/switch")
-    a_lo = region_value(ta, T, 0, Tb)
-    a_hi = region_value(ta, T, Tb, sp.oo)
-    u = sp.Symbol("u", nonnegative=True)
-    # tau = b + u  -> T = right(tau) >= Tb -> toTau upper branch
-    comp_r = sqrt_simplify(a_hi.subs(T, right.subs(tau, b + u)), u)
-    chk.ob("C17-R2", "toTau(toTime(tau)) = tau right of the switch", identically_zero(comp_r - (b + u), [u]), loc(fs["toTau"]), "composition with tau=b+u: %s" % comp_r,
-           construct="QuadInvTimeMap/inverse/right")
-    chk.ob("C17-R2", "toTime maps the right side into toTau's upper branch", pos_on(right - Tb, tau, +1, b, strict=False), where, str(sp.expand(right - Tb)),
-           construct="QuadInvTimeMap/inverse/right-branch")
-    comp_l = sqrt_simplify(a_lo.subs(T, left.subs(tau, b - u)), u)
-    chk.ob("C17-R2", "toTau(toTime(tau)) = tau left of the switch", identically_zero(comp_l - (b - u), [u]), loc(fs["toTau"]), "composition with tau=b-u: %s" % comp_l,
-           construct="QuadInvTimeMap/inverse/left")
-    chk.ob("C17-R2", "toTime maps the left side into toTau's lower branch", pos_on(Tb - left, tau, -1, b, strict=False), where, str(sp.simplify(Tb - left)),
-           construct="QuadInvTimeMap/inverse/left-branch")
-    # toTime(toTau(T)) = T on both T-branches (T = Tb + w, and T = Tb/(1+w) for the lower one)
-    w = sp.Symbol("w", nonnegative=True)
-    tau_hi = a_hi.subs(T, Tb + w)
-    val_hi = sp.simplify(right.subs(tau, tau_hi) - (Tb + w))
-    chk.ob("C17-R2", "toTime(toTau(T)) = T for T above the switch", identically_zero(val_hi, [w]), loc(fs["toTau"]), "residual %s" % val_hi, construct="QuadInvTimeMap/inverse/T-high")
-    Tl = Tb / (1 + w)
-    tau_lo = a_lo.subs(T, Tl)
-    val_lo = sp.simplify(left.subs(tau, tau_lo) - Tl)
-    chk.ob("C17-R2", "toTime(toTau(T)) = T for 0 < T below the switch", identically_zero(val_lo, [w]), loc(fs["toTau"]), "residual %s" % val_lo, construct="QuadInvTimeMap/inverse/T-low")
-    # toTau lands on the matching side: a_hi(T>=Tb) >= b ; a_lo(T<=Tb) <= b
-    chk.ob("C17-R2", "toTau maps T above the switch to tau right of it", sqrt_nonneg(tau_hi - b, w), loc(fs["toTau"]), str(tau_hi), construct="QuadInvTimeMap/inverse/T-high-side")
-    chk.ob("C17-R2", "toTau maps T below the switch to tau left of it", sqrt_nonneg(b - tau_lo, w), loc(fs["toTau"]), str(tau_lo), construct="QuadInvTimeMap/inverse/T-low-side")
+        multi_piece_inverse(chk, ta, T, tb, left, right, tau, b, loc(fs["toTau"]))
+    else:
+        Tb = next(iter(tb))
+        chk.ob("C17-R2", "toTau switches at T = toTime(switch)", sp.simplify(Tb - left.subs(tau, b)) == 0, loc(fs["toTau"]), "T switch %s, toTime(%s) = %s" % (Tb, b, left.subs(tau, b)),
+               construct="QuadInvTimeMap/toTau/switch")
+        a_lo = region_value(ta, T, 0, Tb)
+        a_hi = region_value(ta, T, Tb, sp.oo)
+        u = sp.Symbol("u", nonnegative=True)
+        # tau = b + u  -> T = right(tau) >= Tb -> toTau upper branch
+        comp_r = sqrt_simplify(a_hi.subs(T, right.subs(tau, b + u)), u)
+        chk.ob("C17-R2", "toTau(toTime(tau)) = tau right of the switch", identically_zero(comp_r - (b + u), [u]), loc(fs["toTau"]), "composition with tau=b+u: %s" % comp_r,
+               construct="QuadInvTimeMap/inverse/right")
+        chk.ob("C17-R2", "toTime maps the right side into toTau's upper branch", pos_on(right - Tb, tau, +1, b, strict=False), where, str(sp.expand(right - Tb)),
+               construct="QuadInvTimeMap/inverse/right-branch")
+        comp_l = sqrt_simplify(a_lo.subs(T, left.subs(tau, b - u)), u)
+        chk.ob("C17-R2", "toTau(toTime(tau)) = tau left of the switch", identically_zero(comp_l - (b - u), [u]), loc(fs["toTau"]), "composition with tau=b-u: %s" % comp_l,
+               construct="QuadInvTimeMap/inverse/left")
+        chk.ob("C17-R2", "toTime maps the left side into toTau's lower branch", pos_on(Tb - left, tau, -1, b, strict=False), where, str(sp.simplify(Tb - left)),
+               construct="QuadInvTimeMap/inverse/left-branch")
+        # toTime(toTau(T)) = T on both T-branches (T = Tb + w, and T = Tb/(1+w) for the lower one)
+        w = sp.Symbol("w", nonnegative=True)
+        tau_hi = a_hi.subs(T, Tb + w)
+        val_hi = sp.simplify(right.subs(tau, tau_hi) - (Tb + w))
+        chk.ob("C17-R2", "toTime(toTau(T)) = T for T above the switch", identically_zero(val_hi, [w]), loc(fs["toTau"]), "residual %s" % val_hi, construct="QuadInvTimeMap/inverse/T-high")
+        Tl = Tb / (1 + w)
+        tau_lo = a_lo.subs(T, Tl)
+        val_lo = sp.simplify(left.subs(tau, tau_lo) - Tl)
+        chk.ob("C17-R2", "toTime(toTau(T)) = T for 0 < T below the switch", identically_zero(val_lo, [w]), loc(fs["toTau"]), "residual %s" % val_lo, construct="QuadInvTimeMap/inverse/T-low")
+        # toTau lands on the matching side: a_hi(T>=Tb) >= b ; a_lo(T<=Tb) <= b
+        chk.ob("C17-R2", "toTau maps T above the switch to tau right of it", sqrt_nonneg(tau_hi - b, w), loc(fs["toTau"]), str(tau_hi), construct="QuadInvTimeMap/inverse/T-high-side")
+        chk.ob("C17-R2", "toTau maps T below the switch to tau left of it", sqrt_nonneg(b - tau_lo, w), loc(fs["toTau"]), str(tau_lo), construct="QuadInvTimeMap/inverse/T-low-side")
     # ---- R4 identity map -----------------------------------------------------------------
     icls = "SplineTrajectory::IdentityTimeMap"
     for nm, idx in (("toTime", 0), ("toTau", 0), ("backward", 2)):
@@ -283,7 +321,8 @@ def run(chk):
         ok = len(pcs) == 1 and sp.simplify(pcs[0][1] - syms[idx]) == 0
         chk.ob("C17-R4", "IdentityTimeMap::%s passes its %s through" % (nm, "gradient" if nm == "backward" else "argument"), ok, loc(g), str(pcs), construct="IdentityTimeMap/" + nm)
     chk.floor("C17-R1", 5)
-    chk.floor("C17-R2", 9)
+    # the two-piece formulation states 9 obligations; the piece-by-piece one states one per interval of T > 0
+    chk.floor("C17-R2", 9 if len(tb) == 1 else len([p_ for p_ in tb if p_.is_positive]) + 1)
     chk.floor("C17-R3", 4)
     chk.floor("C17-R4", 3)
     chk.not_decided = ["monotonicity between adjacent floating-point numbers", "accuracy of the inverse near |tau| = 1e6 (rounding)"]
